@@ -39,7 +39,7 @@ func verifSpellingDoc(full bool) (string, []ast.RelationType, ast.Child, string)
 	// --- type of Doc.viewers
 	var types []ast.RelationType
 	var typ string
-	switch verifPickAt(0, "", "", "", "", "", "") {
+	switch verifPickAt(0, "", "", "", "", "", "", "", "") {
 	case 0:
 		typ, types = "User[]", []ast.RelationType{{Namespace: "User"}}
 	case 1:
@@ -50,8 +50,13 @@ func verifSpellingDoc(full bool) (string, []ast.RelationType, ast.Child, string)
 		typ, types = "SubjectSet<Group, \"members\">[]", []ast.RelationType{{Namespace: "Group", Relation: "members"}}
 	case 4:
 		typ, types = "(User | SubjectSet<Group, 'members'>)[]", []ast.RelationType{{Namespace: "User"}, {Namespace: "Group", Relation: "members"}}
-	default:
+	case 5:
 		typ, types = "Array<User | SubjectSet<Group, \"members\">>", []ast.RelationType{{Namespace: "User"}, {Namespace: "Group", Relation: "members"}}
+	case 6:
+		// one namespace in two forms: as subject ids and as a subject set
+		typ, types = "(Group | SubjectSet<Group, \"members\">)[]", []ast.RelationType{{Namespace: "Group"}, {Namespace: "Group", Relation: "members"}}
+	default:
+		typ, types = "Array<SubjectSet<Group, \"members\"> | Group | User>", []ast.RelationType{{Namespace: "Group", Relation: "members"}, {Namespace: "Group"}, {Namespace: "User"}}
 	}
 	name := verifPick(1, "viewers", "'viewers'", "\"viewers\"")
 	// separators between and after relation declarations
